@@ -8,6 +8,7 @@
 -/
 import SfProofs.BlockReader
 import SfModel.Paf24
+import SfModel.AdpcmReader
 namespace Sf.C06Block
 open Sf Sf.Block Sf.Block.Proofs
 
@@ -32,6 +33,21 @@ theorem block_reader_init (r : Reader) : Inv r r.init ∧ r.pos r.init = 0 := in
 /-- end-of-data rule of the codec loop: nothing delivered, the request zero-filled, state unchanged -/
 theorem block_reader_eof (r : Reader) (st : RState) (n : Nat) (hn : n ≠ 0) (h : r.pos st ≥ r.frames) :
     r.read st n = (st, zeros n, 0) := readLoop_eof r n st n hn h
+
+/-- reads that run past `frames`, `frames` not necessarily a whole number of blocks (SDS): the inner call
+    delivers `t` frames of the stream with `min m (frames − pos) ≤ t ≤ m` — everything up to `frames`, possibly the
+    rest of the block that holds frame `frames − 1` — zero-fills the rest of the request and reports `t·ch`; the
+    sf_read_* wrapper then clamps the count to `frames − pos` and zero-fills from there (`RHandle.read`) -/
+theorem block_reader_past_end (r : Reader) (wf : WF r) (st : RState) (inv : Inv r st) (m : Nat) :
+    ∃ t, t ≤ m ∧ min m (r.frames - r.pos st) ≤ t ∧
+      (r.read st (m * r.ch)).2.1 = r.slice (r.pos st * r.ch) (t * r.ch) ++ zeros ((m - t) * r.ch) ∧
+      (r.read st (m * r.ch)).2.2 = t * r.ch ∧ Inv r (r.read st (m * r.ch)).1 ∧
+      r.pos (r.read st (m * r.ch)).1 = r.pos st + t := by
+  obtain ⟨t, st', h1, h2, h3, h4, h5⟩ := readLoop_general r wf (m * r.ch + 1) st m inv (le_mul_ch r wf m)
+  refine ⟨t, h1, h2, ?_⟩
+  unfold Reader.read
+  rw [h3]
+  exact ⟨rfl, rfl, h4, h5⟩
 
 /-- ∀ splits: reading a frames and then b frames gives the items, the count and the position of one read of
     a + b frames -/
@@ -64,6 +80,44 @@ theorem paf24_reader_wf (ch : Nat) (big : Bool) (data : List Byte) (hch : 0 < ch
   · simp [Paf24.decBlock]
   · simp [zeros]
 
+/-! ## IMA ADPCM (WAV layout) and MS ADPCM: the readers are instances, so the theorems above are their
+    model-level seek / read theorems (the block decoders are the ones proved equal to the reference decoders in
+    SfProps/C20Adpcm.lean) -/
+
+theorem fixLen_length (n : Nat) (l : List Int) : (fixLen n l).length = n := by
+  simp [fixLen, zeros]
+
+theorem ite_length {c : Prop} [Decidable c] (a b : List Int) (n : Nat) (ha : a.length = n) (hb : b.length = n) :
+    (if c then a else b).length = n := by
+  split <;> assumption
+
+theorem adpcm_reader_wf (dec : List Byte → List Int) (ch ba spb : Nat) (data : List Byte) (hch : 0 < ch) (hspb : 0 < spb) :
+    WF (adpcmReader dec ch ba spb data) := by
+  refine ⟨hspb, hch, ?_⟩
+  intro k
+  unfold adpcmReader
+  exact ite_length _ _ _ (fixLen_length _ _) (by simp [zeros])
+
+theorem ima_wav_reader_wf (ch ba spb : Nat) (data : List Byte) (hch : 0 < ch) (hspb : 0 < spb) :
+    WF (imaWavReader ch ba spb data) := adpcm_reader_wf _ ch ba spb data hch hspb
+
+theorem ms_reader_wf (ch ba spb : Nat) (data : List Byte) (hch : 0 < ch) (hspb : 0 < spb) :
+    WF (msReader ch ba spb data) := adpcm_reader_wf _ ch ba spb data hch hspb
+
+/-- IMA WAV: after a seek to frame k, a read of m frames inside the data returns frames k … k+m−1 of the decoded
+    block stream, whatever the block bytes are -/
+theorem ima_wav_seek_then_read (ch ba spb : Nat) (data : List Byte) (hch : 0 < ch) (hspb : 0 < spb) (k m : Nat)
+    (h : k + m ≤ (imaWavReader ch ba spb data).frames) :
+    ((imaWavReader ch ba spb data).read ((imaWavReader ch ba spb data).seek k) (m * ch)).2.1 =
+      (imaWavReader ch ba spb data).slice (k * ch) (m * ch) :=
+  (seek_then_read_block _ (ima_wav_reader_wf ch ba spb data hch hspb) k m h).1
+
+theorem ms_seek_then_read (ch ba spb : Nat) (data : List Byte) (hch : 0 < ch) (hspb : 0 < spb) (k m : Nat)
+    (h : k + m ≤ (msReader ch ba spb data).frames) :
+    ((msReader ch ba spb data).read ((msReader ch ba spb data).seek k) (m * ch)).2.1 =
+      (msReader ch ba spb data).slice (k * ch) (m * ch) :=
+  (seek_then_read_block _ (ms_reader_wf ch ba spb data hch hspb) k m h).1
+
 /-- non-vacuity: a two-frames-per-block, two-channel reader over three blocks; a read that crosses two block
     boundaries after a seek into the middle of a block -/
 def toy : Reader := { spb := 2, ch := 2, frames := 6, src := fun k => [100 * k, 100 * k + 1, 100 * k + 2, 100 * k + 3] }
@@ -71,5 +125,10 @@ theorem toy_wf : WF toy := ⟨by decide, by decide, fun _ => rfl⟩
 example : (toy.read (toy.seek 1) (4 * 2)).2.1 = [2, 3, 100, 101, 102, 103, 200, 201] ∧
     toy.slice (1 * 2) (4 * 2) = [2, 3, 100, 101, 102, 103, 200, 201] ∧ toy.pos (toy.seek 1) + 4 ≤ toy.frames := by decide
 example : (toy.read (toy.seek 6) 4).2 = ([0, 0, 0, 0], 0) := by decide
+/-- a reader whose data ends inside a block (5 of 6 frames): a read of 3 frames from frame 3 delivers the rest of
+    the block (t = 3 ≥ min 3 (5 − 3)); the wrapper clamps to 2 frames -/
+def toy5 : Reader := { toy with frames := 5 }
+example : (toy5.read (toy5.seek 3) (3 * 2)).2 = ([102, 103, 200, 201, 202, 203], 6) ∧
+    ((RHandle.open toy5 5).seek 3 |>.read 0 6).2 = ([102, 103, 200, 201, 0, 0], 4) := by decide
 
 end Sf.C06Block
